@@ -17,6 +17,8 @@ ROUTING_OPTS: dict[str, dict[str, Any]] = {
     "contype": {},
     "field": {"field_constraints": True},
     "annotated": {"field_constraints": True, "use_annotated": True},
+    # not a constraint routing: the field-name resolver renames camel-case members too (used by focused documents)
+    "snake": {"snake_case_field": True},
 }
 
 
@@ -88,9 +90,27 @@ class Built:
             return pydantic.TypeAdapter(self.root).json_schema(by_alias=True)
 
 
-def build(doc: dict, style: str = "v2", opts: dict | None = None, kind: str | None = None, formatters=None, target: str | None = None, root_name: str = "Model") -> Built:
+def to_openapi(doc: dict) -> dict:
+    """the same document as an OpenAPI 3 specification: the definitions and the body (as `Model`) become
+    `components.schemas`, local references are rewritten"""
+
+    def rw(x: Any) -> Any:
+        if isinstance(x, dict):
+            return {k: (v.replace("#/definitions/", "#/components/schemas/") if isinstance(v, str) and (k == "$ref" or v.startswith("#/definitions/")) else rw(v)) for k, v in x.items()}
+        if isinstance(x, list):
+            return [rw(v) for v in x]
+        return x
+
+    d = strip_doc(doc)
+    body = {k: v for k, v in d.items() if k != "definitions"}
+    schemas = {**{k: rw(v) for k, v in (d.get("definitions") or {}).items()}, "Model": rw(body)}
+    return {"openapi": "3.0.3", "info": {"title": "t", "version": "1"}, "paths": {}, "components": {"schemas": schemas}}
+
+
+def build(doc: dict, style: str = "v2", opts: dict | None = None, kind: str | None = None, formatters=None, target: str | None = None, root_name: str = "Model", input_file_type: str = "jsonschema") -> Built:
     kind = kind or STYLE_MODEL[style]
-    res = e2e.run_generate(strip_doc(doc), model=kind, opts=opts or {}, formatters=formatters, target=target)
+    src = to_openapi(doc) if input_file_type == "openapi" else strip_doc(doc)
+    res = e2e.run_generate(src, model=kind, opts=opts or {}, formatters=formatters, target=target, input_file_type=input_file_type)
     b = Built(ok=False, style=style, kind=kind, code=res.code)
     if not res.ok:
         b.error = f"generate: {res.error_type}: {res.error_msg}"
